@@ -102,7 +102,7 @@ add("C10",
     "proved by frame analysis over the AST to be written only by their getter at key npts, so the rule for n depends on n alone for every call order; exactness "
     "to order / weights sum / node order are exact arithmetic per n up to a bound (bounded in n, not a proof over n); Integrate.scalar and Integrate.function "
     "with symbolic control points / integrand coefficients on concrete knot vectors equal the closed form exactly; Integrate.lenght on concrete polylines. " + S_NOTE,
-    "DESIGN.md 5/C10", COMMON_TRUST + " Closed Newton-Cotes on discontinuous curves is known finding D12.",
+    "DESIGN.md 5/C10", COMMON_TRUST + " (Closed Newton-Cotes on discontinuous curves, D12, was repaired.)",
     "contracts on the real functions; engine V (AST->VC->z3) for the node generators, AST frame analysis for the memo tables, exact per-n arithmetic and symbolic-control-point execution for the rest (bounded)")
 add("C12",
     "Contract on Curve.fit_points / fit_function / LeastSquare.fit_function / Linalg.lstsq: the linear map data -> control points is extracted exactly and checked "
